@@ -72,7 +72,9 @@ func (h H) promotionGate(rule string) {
 			}
 		}
 		// promotion: a mapupdate after Voter := true
-		iV := evIndex(t, func(e core.Event) bool { return e.Callee == "store" && strings.HasSuffix(e.Args[0], ".Voter") && e.Args[1] == "true" })
+		iV := evIndex(t, func(e core.Event) bool {
+			return e.Callee == "store" && strings.HasSuffix(e.Args[0], ".Voter") && e.Args[1] == "true"
+		})
 		if iV >= 0 {
 			nProm++
 			ev := t.Events[iV]
